@@ -27,8 +27,21 @@ PARTIAL = [
     "sweep theorems are stated for the written-out model.  Not modelled: the input objects' caches are taken empty (the getters "
     "return separate(net) either way, C09 views_consistent), validation inside NURBS set_ctrlpts; a zero weight makes the real code "
     "raise (ZeroDivisionError in separate_ctrlpts_weights) = ERR of the written-out ops (stream ratzero)",
-    "knot vectors are carried through unchanged; the validation / normalisation done by the knot-vector setters "
-    "is not modelled here (C03)",
+    "knot vectors of the INPUT objects are carried through unchanged (they were validated / normalised when the objects were "
+    "built, C03).  The knotvector= argument of construct_surface / construct_volume goes through the knot-vector setter of the new "
+    "object: the driver ops consurf / convol / consurfr / convolr answer ERR where the code raises (degree=0: the eagerly "
+    "evaluated default knotvector.generate(0, n); fewer than degree+1 inputs; knotvector.check fails: wrong length or not "
+    "non-decreasing; first knot = last knot: normalize divides by zero) and otherwise pass knotNormalize(kv) to the model "
+    "(Driver/Layout.lean storedKv; streams consurf-kvnorm / consurf-kvbad / convol-kvnorm / convol-kvbad and their rational "
+    "twins); construct_surface_eval / construct_volume_eval carry these guards (hdeg1, hkv, hrange) and speak about the curve "
+    "over kvO = knotNormalize L, construct_extract_* carry 1 <= degO and degO + 1 <= len(args) and treat kvO as the abstract "
+    "stored knot datum",
+    "sweep_vector with a vector shorter than the control points have spatial coordinates raises (point_translate zips): ERR in the "
+    "four sweep ops, hypothesis d <= len(vec) (resp. the dimension-keeping hypothesis htr) in sweep_curve_sections, "
+    "sweep_surface_sections, sweep_sections_rational, sweep_vector_rational_explicit, sweep_surface_boundary_points(_generated); "
+    "streams sweepc-short / sweeps-short (+ rational twins); longer vectors are cut on both sides.  In sweep_surface_sections "
+    "/ sweep_surface_boundary_points(_generated) the point map is selected by the flag rat (pointTranslateW / pointTranslate) and "
+    "the guards (3 spatial coordinates, vector length, non-zero weights) are tied to it",
     "evaluation of constructed shapes: construct_surface_eval / construct_volume_eval (all stacking directions, repaired code) give "
     "S(t,v) resp. V(t,a,b) = degree-degO curve with the given knot function through the points C_i(v) resp. S_i(a,b), every "
     "coordinate of the stored points; the inputs are evaluated with the degree(s) and knot vector(s) of the FIRST input (the code "
@@ -40,7 +53,8 @@ PARTIAL = [
 ASSUMPTIONS = [
     "rational shapes are compared on their homogeneous nets; the identity-model ops are generated with non-zero (positive) weights "
     "only, the written-out ops additionally with one zero weight (both sides must raise / answer ERR)",
-    "knot vectors are already normalised to [0,1] (the knot-vector setters normalise; identity here)",
+    "knot vectors of the generated input shapes are already normalised to [0,1] (the knot-vector setters normalise; identity "
+    "there); un-normalised / invalid vectors are generated for the knotvector= argument of construct_* only",
     "operations.transpose leaves sample_size_u/v (delta) unswapped; this affects only sampled evalpts grids and is "
     "recorded as an observation (DESIGN section 7, C13), not checked",
     "model of the pinned construct_volume (used only for the refutation theorems) was compared with the pinned "
@@ -213,6 +227,36 @@ def ex_surfs_py(V, key):
                  pts=[at(u, v, w) for v in range(sv) for w in range(sw)]) for u in range(su)]
 
 
+def kv_ok(deg, kv, n):
+    """guard of the knot-vector setter behind construct_*: degree >= 1 (the eagerly evaluated default
+    knotvector.generate(0, n) raises), knotvector.check (length, non-decreasing), and a non-zero range (normalize)"""
+    return deg >= 1 and len(kv) == deg + n + 1 and all(a <= b for a, b in zip(kv, kv[1:])) and kv[0] != kv[-1]
+
+
+def kv_norm(kv):
+    return [(x - kv[0]) / (kv[-1] - kv[0]) for x in kv]
+
+
+def kv_variant(rng, deg, n):
+    """(label, degree, knot vector) for the knotvector= argument of construct_*: two valid un-normalised forms (the
+    setter normalises) and the malformed ones (the setter / the default-argument evaluation raises)"""
+    base = kv_for(rng, deg, n)
+    r = rng.choice(['unnorm', 'unclamped', 'deg0', 'unsorted', 'wronglen', 'allequal'])
+    if r == 'unnorm':
+        a, b = F(rng.randint(2, 5), rng.choice([1, 2])), F(rng.randint(-3, 3))
+        return r, deg, [a * x + b for x in base]
+    if r == 'unclamped':
+        return r, deg, [F(i, 2) for i in range(deg + n + 1)]
+    if r == 'deg0':
+        return r, 0, [F(i, n) for i in range(n + 1)]
+    if r == 'unsorted':
+        kv = list(base); kv[deg], kv[deg + 1] = F(2, 3), F(1, 3)
+        return r, deg, kv
+    if r == 'wronglen':
+        return r, deg, base[:-1] if rng.random() < .5 else base + [F(1)]
+    return r, deg, [F(1)] * (deg + n + 1)
+
+
 KEY_OF_DIR = {'u': 'vw', 'v': 'uw', 'w': 'uv'}          # which extracted family is stacked along which direction
 OTHER = {'u': ('du', 'ku'), 'v': ('dv', 'kv'), 'w': ('dw', 'kw')}
 
@@ -240,6 +284,10 @@ def rat_twin(c):
     if k == 'sweeps':
         assert ln.startswith('sweeps 1 ')
         return Case('sweepsr', 'sweepsr ' + ln[len('sweeps 1 '):], dict(c.data), tags=c.tags)
+    if k == 'sweepc-short':
+        return Case('sweepcr-short', 'sweepcr ' + ln[len('sweepc 1 '):], dict(c.data), tags=c.tags)
+    if k == 'sweeps-short':
+        return Case('sweepsr-short', 'sweepsr ' + ln[len('sweeps 1 '):], dict(c.data), tags=c.tags)
     return None
 
 
@@ -256,6 +304,8 @@ def gen(rng, tier):
     # malformed stream of the split-and-recombine ops: a zero weight in one input
     bad = []
     for t in tw:
+        if t.kind.endswith('-short') or '-kv' in t.kind:
+            continue            # already malformed streams of their own
         if rng.random() < .12:
             d = dict(t.data)
             if t.kind.startswith('consurfr-'):
@@ -321,6 +371,12 @@ def gen_base(rng, tier):
                             dict(dir=d, deg=deg, kv=kv, crvs=cs, rat=rat, srf=S)))
         vec = [F(rng.randint(-5, 5), rng.choice([1, 2, 3])) for _ in range(len(P[0]) - (1 if rat else 0))]
         out.append(Case('sweeps', "sweeps %d %s %s" % (1 if rat else 0, show_list(vec), srf_txt(S)), dict(base, vec=vec, prm=params(rng, 2))))
+        if rng.random() < .2:
+            # malformed: a vector SHORTER than the points have spatial coordinates (point_translate zips: the translated
+            # points lose coordinates and set_ctrlpts of the swept copy raises); both sides must refuse
+            short = vec[:rng.randint(1, len(vec) - 1)]
+            G.count('sweep-short', 'surface')
+            out.append(Case('sweeps-short', "sweeps %d %s %s" % (1 if rat else 0, show_list(short), srf_txt(S)), dict(base, vec=short)))
     # ... and from unrelated curves of equal degree and size, plus the malformed stream
     for _ in range(30 if quick else 400):
         c0, rat = rand_curve(rng)
@@ -343,10 +399,26 @@ def gen_base(rng, tier):
         G.count('consurf', kind)
         out.append(Case(kind, "consurf %s %d %s %s" % (d, deg, show_list(kv), " ".join(crv_txt(c) for c in cs)),
                         dict(dir=d, deg=deg, kv=kv, crvs=cs, rat=rat)))
+        if kind == 'consurf-free' and rng.random() < .6:
+            # the knotvector= argument goes through the knot-vector setter: valid un-normalised vectors are normalised,
+            # invalid ones (and degree=0) raise
+            lab, deg2, kv2 = kv_variant(rng, deg, n)
+            kind2 = 'consurf-kvnorm' if lab in ('unnorm', 'unclamped') else 'consurf-kvbad'
+            G.count('consurf-kv', lab)
+            out.append(Case(kind2, "consurf %s %d %s %s" % (d, deg2, show_list(kv2), " ".join(crv_txt(c) for c in cs)),
+                            dict(dir=d, deg=deg2, kv=kv2, crvs=cs, rat=rat, kvlab=lab)))
         c, rat = rand_curve(rng)
         dim = len(c['pts'][0]) - (1 if rat else 0)
         vec = [F(rng.randint(-5, 5), rng.choice([1, 2, 3])) for _ in range(dim)]
         out.append(Case('sweepc', "sweepc %d %s %s" % (1 if rat else 0, crv_txt(c), show_list(vec)), dict(crv=c, rat=rat, vec=vec, prm=params(rng, 2))))
+        if rng.random() < .3:
+            short = vec[:rng.randint(1, dim - 1)]
+            G.count('sweep-short', 'curve')
+            out.append(Case('sweepc-short', "sweepc %d %s %s" % (1 if rat else 0, crv_txt(c), show_list(short)), dict(crv=c, rat=rat, vec=short)))
+        elif rng.random() < .15:
+            # a LONGER vector is fine on both sides (zip cuts it)
+            lng = vec + [F(rng.randint(1, 4))]
+            out.append(Case('sweepc', "sweepc %d %s %s" % (1 if rat else 0, crv_txt(c), show_list(lng)), dict(crv=c, rat=rat, vec=lng, prm=params(rng, 1))))
     n_v = 22 if quick else 300
     for _ in range(n_v):
         V, rat = rand_vol(rng, 5 if quick else 6)
@@ -362,6 +434,14 @@ def gen_base(rng, tier):
             out.append(Case('exsurfs-' + key, "exsurfs %s %s" % (key, vol_txt(V)), dict(base, key=key, prm=params(rng, 1))))
         for d in 'uvw':
             out.append(convol_case(V, rat, d))
+        if rng.random() < .5:
+            d = rng.choice('uvw')
+            ss = ex_surfs_py(V, KEY_OF_DIR[d])
+            lab, deg2, kv2 = kv_variant(rng, V[OTHER[d][0]], len(ss))
+            kind2 = 'convol-kvnorm' if lab in ('unnorm', 'unclamped') else 'convol-kvbad'
+            G.count('convol-kv', lab)
+            out.append(Case(kind2, "convol %s %d %s %s" % (d, deg2, show_list(kv2), " ".join(srf_txt(s) for s in ss)),
+                            dict(dir=d, deg=deg2, kv=kv2, surfs=ss, rat=rat, kvlab=lab)))
         # malformed: one surface only / one surface of another size
         if rng.random() < .3:
             ss = ex_surfs_py(V, 'uv')
@@ -432,9 +512,9 @@ def impl(c):
     if k.startswith('convol-') or k.startswith('convolr-'):
         ss = [mk_surf(s, rat) for s in d['surfs']]
         return vol_txt(vol_data(construct.construct_volume(d['dir'], *ss, degree=d['deg'], knotvector=qs(d['kv']))))
-    if k in ('sweepc', 'sweepcr', 'sweepcr-'):
+    if k in ('sweepc', 'sweepcr', 'sweepcr-', 'sweepc-short', 'sweepcr-short'):
         return srf_txt(srf_data(sweeping.sweep_vector(mk_curve(d['crv'], rat), qs(d['vec']))))
-    if k in ('sweeps', 'sweepsr', 'sweepsr-'):
+    if k in ('sweeps', 'sweepsr', 'sweepsr-', 'sweeps-short', 'sweepsr-short'):
         return vol_txt(vol_data(sweeping.sweep_vector(mk_surf(d['srf'], rat), qs(d['vec']))))
     raise ValueError(k)
 
@@ -526,12 +606,13 @@ def oracle_rat(c):
     if k.startswith('consurfr-') or k.startswith('convolr-'):
         if k.startswith('consurfr-'):
             cs = d['crvs']
-            ok = len(cs) >= 2 and all(x['deg'] == cs[0]['deg'] and len(x['pts']) == len(cs[0]['pts']) for x in cs) and d['deg'] + 1 <= len(cs)
+            ok = len(cs) >= 2 and all(x['deg'] == cs[0]['deg'] and len(x['pts']) == len(cs[0]['pts']) for x in cs) and d['deg'] + 1 <= len(cs) \
+                and kv_ok(d['deg'], d['kv'], len(cs))
             f = lambda: construct.construct_surface(d['dir'], *[mk_curve(x, True) for x in cs], degree=d['deg'], knotvector=qs(d['kv']))
         else:
             ss = d['surfs']
             ok = len(ss) >= 2 and all((x['du'], x['dv'], x['su'], x['sv']) == (ss[0]['du'], ss[0]['dv'], ss[0]['su'], ss[0]['sv']) for x in ss) \
-                and d['deg'] + 1 <= len(ss)
+                and d['deg'] + 1 <= len(ss) and kv_ok(d['deg'], d['kv'], len(ss))
             f = lambda: construct.construct_volume(d['dir'], *[mk_surf(x, True) for x in ss], degree=d['deg'], knotvector=qs(d['kv']))
         try:
             r = f()
@@ -560,6 +641,14 @@ def oracle(c):
     d = c.data
     k = c.kind
     rat = d.get('rat', False)
+    if k.endswith('-short'):
+        # a vector with fewer entries than the points have spatial coordinates: sweep_vector must refuse
+        o = mk_curve(d['crv'], rat) if k.startswith('sweepc') else mk_surf(d['srf'], rat)
+        try:
+            sweeping.sweep_vector(o, qs(d['vec']))
+        except Exception:
+            return None
+        return "sweep_vector accepted a vector shorter than the control points"
     if k == 'ratzero' or k.endswith('r') and k in ('sweepcr', 'sweepsr') or k.startswith('consurfr-') or k.startswith('convolr-'):
         return oracle_rat(c)
     if k in ('c2d', 'set2d', 'mgrget2', 'mgrset2'):
@@ -699,13 +788,16 @@ def oracle(c):
         return None
     if k.startswith('consurf-'):
         cs = d['crvs']
-        ok = len(cs) >= 2 and all(x['deg'] == cs[0]['deg'] and len(x['pts']) == len(cs[0]['pts']) for x in cs) and d['deg'] + 1 <= len(cs)
+        ok = len(cs) >= 2 and all(x['deg'] == cs[0]['deg'] and len(x['pts']) == len(cs[0]['pts']) for x in cs) and d['deg'] + 1 <= len(cs) \
+            and kv_ok(d['deg'], d['kv'], len(cs))
         try:
             r = construct.construct_surface(d['dir'], *[mk_curve(x, rat) for x in cs], degree=d['deg'], knotvector=qs(d['kv']))
         except Exception as e:
             return None if not ok else "construct_surface raised %s on admissible curves" % type(e).__name__
         if not ok:
             return "construct_surface accepted inadmissible input"
+        if plainl(r.knotvector_u if d['dir'] == 'u' else r.knotvector_v) != kv_norm(d['kv']):
+            return "construct_surface does not store the normalised knotvector= argument"
         ex = construct.extract_curves(r)
         back = [crv_data(x) for x in ex['v' if d['dir'] == 'u' else 'u']]
         want = [dict(x, kv=cs[0]['kv']) for x in cs]     # the first curve's knot vector is used for all
@@ -729,6 +821,20 @@ def oracle(c):
             bad = _same_vol(vol_data(r), V)
             if bad:
                 return "extract_surfaces['%s'] then construct_volume('%s') does not return the volume (%s differs)" % (KEY_OF_DIR[dd], dd, bad)
+        return None
+    if k in ('convol-kvbad', 'convol-kvnorm'):
+        ss = d['surfs']
+        ok = kv_ok(d['deg'], d['kv'], len(ss)) and d['deg'] + 1 <= len(ss)
+        try:
+            r = construct.construct_volume(d['dir'], *[mk_surf(s, rat) for s in ss], degree=d['deg'], knotvector=qs(d['kv']))
+        except Exception as e:
+            return None if not ok else "construct_volume raised %s on an admissible knot vector" % type(e).__name__
+        if not ok:
+            return "construct_volume accepted an invalid knot vector / degree 0"
+        if vol_data(r)[OTHER[d['dir']][1]] != kv_norm(d['kv']):
+            return "construct_volume does not store the normalised knotvector= argument"
+        if [srf_data(x) for x in construct.extract_surfaces(r)[KEY_OF_DIR[d['dir']]]] != [dict(x) for x in ss]:
+            return "construct_volume('%s') then extract_surfaces does not return the input surfaces" % d['dir']
         return None
     if k == 'convol-bad':
         ss = d['surfs']
